@@ -11,5 +11,29 @@ pub mod xmlnode_stub {
         #[verifier::external_body]
         pub fn as_naive_date(&self) -> (r: NaiveDate) ensures r == self.date() { unimplemented!() }
     }
-    pub struct Entry { pub booking_date: DateHolder, pub value_date: Option<DateHolder> }
+    /// stand-in for xmlnode::Entry: the members the importer's per-entry statements read (the XML types behind the other members are not modelled)
+    pub struct Entry { pub amount: super::xmlnode::Amount, pub credit_or_debit: CreditDebitIndicator, pub booking_date: DateHolder, pub value_date: Option<DateHolder> }
+    pub struct CreditDebitIndicator { pub value: super::xmlnode::CreditOrDebit }
+    pub struct References { pub account_servicer_reference: Option<String> }
+    /// stand-ins for xmlnode::Statement / Balance: the members find_balance reads
+    pub struct Statement { pub balance: Vec<Balance> }
+    pub struct Balance { pub balance_type: BalanceType, pub amount: super::xmlnode::Amount, pub credit_or_debit: CreditDebitIndicator }
+    pub struct BalanceType { pub credit_or_property: CodeOrProperty }
+    pub struct CodeOrProperty { pub code: BalanceCodeValue }
+    pub struct BalanceCodeValue { pub value: super::xmlnode::BalanceCode }
+    /// stand-in for xmlnode::TransactionDetails (one detail of a batched entry)
+    pub struct TransactionDetails { pub refs: References, pub amount: super::xmlnode::Amount, pub credit_or_debit: CreditDebitIndicator }
 }
+/// extract::Fragment as the importer reads it
+pub struct Fragment { pub cleared: bool, pub payee: Option<&'static str>, pub account: Option<&'static str> }
+/// ASSUMED std models used by the Txn setters: str::to_string, Option<&str>::map(str::to_string), Option<String>::as_deref
+#[verifier::external_body]
+pub fn opt_str_to_string(o: Option<&str>) -> (r: Option<String>) ensures r is Some <==> o is Some, r matches Some(s) ==> s@ == o->Some_0@ { unimplemented!() }
+#[verifier::external_body]
+pub fn str_to_string(s: &str) -> (r: String) ensures r@ == s@ { unimplemented!() }
+#[verifier::external_body]
+pub fn opt_string_as_deref(o: &Option<String>) -> (r: Option<&str>) ensures r is Some <==> o is Some, r matches Some(s) ==> s@ == o->Some_0@ { unimplemented!() }
+/// single_entry::single_line (keeps imported text on one line; C15): opaque here
+#[verifier::external_body]
+pub fn single_line(text: &str) -> (r: String) { unimplemented!() }
+
